@@ -331,7 +331,7 @@ func (b Builder) abiExtendedFields(t types.Type, name string) (fields []llvm.Val
 		for i := 0; i < n; i++ {
 			if f := t.Field(i); !f.Exported() {
 				if pkg := f.Pkg(); pkg != nil {
-					pkgPath = pkg.Path()
+					pkgPath = abi.ReflectPathOf(pkg)
 					break
 				}
 			}
@@ -360,7 +360,7 @@ retry:
 		goto retry
 	case *types.Named:
 		pkg := typ.Obj().Pkg()
-		return pkg, abi.PathOf(pkg)
+		return pkg, abi.ReflectPathOf(pkg)
 	}
 	return nil, b.Pkg.Path()
 }
@@ -370,7 +370,10 @@ func (b Builder) abiUncommonMethodSet(t types.Type) (mset *types.MethodSet, ok b
 	switch t := types.Unalias(t).(type) {
 	case *types.Named:
 		if _, b := t.Underlying().(*types.Interface); b {
-			return
+			if t.Obj().Pkg() == nil {
+				return // error, any, comparable
+			}
+			return new(types.MethodSet), true
 		}
 		mset := types.NewMethodSet(t)
 		if mset.Len() != 0 {
